@@ -41,6 +41,9 @@ def dualFns : List (String × (Array DF → Array Float → List DF)) := [
   ("intersect", fun xs _ =>
     let h := intersectSurface (dvec xs 0) (dvec xs 3) (dvec xs 6) (dvec xs 9) (dvec xs 12)
     vout h.point ++ [h.distance] ++ vout h.normal),
+  ("create_ray", fun xs _ => vout (createRayDir (dvec xs 0))),
+  -- propagate_ray: xs = o(3) d(3) t
+  ("propagate_ray", fun xs _ => vout (propagateRay (dvec xs 0) (dvec xs 3) (dv xs 6))),
   ("ray2", fun xs _ => vout (rayDirTwoPoints (dvec xs 0) (dvec xs 3))),
   ("rgb2ycrcb", fun xs _ => vout (Gen.rgb2ycrcb (dvec xs 0))),
   ("ycrcb2rgb", fun xs _ => vout (Gen.ycrcb2rgb (dvec xs 0))),
